@@ -11,7 +11,7 @@
                              action `resolve` of the frame that is entered)
     * compiler.py:610-691 (macro_body), 825-943 (visit_Template: root frame, one isolated frame per block),
       1178-1315 (visit_For: test/loop/else frames), 1317-1377 (If/Macro/CallBlock/FilterBlock/With),
-      1610-1630 (AssignBlock), 1951-1956 (Scope)
+      1610-1630 (AssignBlock: body and filter in the block's frame), 1951-1956 (Scope)
     * meta.py:12-31 (TrackingCodeGenerator.enter_frame), meta.py:62-112 (find_referenced_templates)
 
   An expression matters for name binding only through the `Name(ctx='load')` nodes inside it (Jinja expressions
@@ -252,7 +252,8 @@ def macroFrame (o' : List Name) (args : List Name) (d : Expr) (body : List Stmt)
 
 def withFrame (o' : List Name) (tg : List Name) (body : List Stmt) : St := fsvs o' body (declParams tg {})
 def plainFrame (o' : List Name) (body : List Stmt) : St := fsvs o' body {}
-/-- filter block frame: body, then the filter's arguments (idtracking.py:183, nodes.FilterBlock.fields) -/
+/-- filter block frame, set-block frame: body, then the filter's arguments (idtracking.py:183 with
+    nodes.FilterBlock.fields; idtracking.py:188-195) -/
 def filterFrame (o' : List Name) (f : Expr) (body : List Stmt) : St := loadAll o' f (fsvs o' body {})
 
 /-- root frame (compiler.py:875-879) -/
@@ -269,8 +270,8 @@ def blockFrame (body : List Stmt) : St :=
 
   `needs s`: names visited *in the frame the statement occurs in* (compiler.py visit_Name:1640, visit_NSRef:1664,
   visit_Assign:1595, visit_Macro:1345, visit_Import:1114, visit_FromImport:1136); `refOk` follows the frames like `cg`.
-  The filter of a set block is visited in the block's frame (compiler.py:1625) although the analysis of that frame
-  covers only the body (idtracking.py:188-190). -/
+  The filter of a set block is visited in the block's frame (compiler.py:1625), which analyses the body and then the
+  filter (idtracking.py:188-195). -/
 
 def tgtName : Tgt → Name
   | .store n => n
@@ -312,7 +313,7 @@ def refOk (outer : List Name) (st : St) : Stmt → Bool
   | .assign ts e => allRef outer st (e ++ ts.map tgtName)
   | .assignBlock t flt body =>
     let o' := inner outer st
-    let f := plainFrame o' body
+    let f := filterFrame o' flt body
     allRef outer st [tgtName t] && allRef o' f flt && refOks o' f body
   | .with_ tg vs body =>
     let o' := inner outer st
@@ -342,27 +343,6 @@ def refOks (outer : List Name) (st : St) : List Stmt → Bool
   | s :: ss => refOk outer st s && refOks outer st ss
 end
 
-/- no set block (at any depth, block bodies included) has a filter that mentions a name -/
-mutual
-def nf : Stmt → Bool
-  | .output _ => true
-  | .ite _ b ei el => nfs b && nfs ei && nfs el
-  | .for_ _ _ b el _ _ => nfs b && nfs el
-  | .assign _ _ => true
-  | .assignBlock _ f b => f.isEmpty && nfs b
-  | .with_ _ _ b => nfs b
-  | .macro_ _ _ _ b => nfs b
-  | .callBlock _ _ _ b => nfs b
-  | .filterBlock _ b => nfs b
-  | .block _ _ b => nfs b
-  | .ref _ _ _ _ => true
-  | .scope b => nfs b
-  | .evalctx _ b => nfs b
-def nfs : List Stmt → Bool
-  | [] => true
-  | s :: ss => nf s && nfs ss
-end
-
 /-- the whole module compiles without `Symbols.ref` failing: root function and every block function -/
 def refOkTemplate (t : List Stmt) : Bool :=
   refOks [] (rootFrame t) t && (blocksOfs t).all (fun b => refOks [] (blockFrame b.2.2) b.2.2)
@@ -381,9 +361,9 @@ def cg (outer : List Name) (st : St) : Stmt → List Name
     resolves lf ++ cgs o' lf body ++
     (if els.isEmpty then [] else resolves ef ++ cgs o' ef els)
   | .assign _ _ => []
-  | .assignBlock _ _ body =>
+  | .assignBlock _ flt body =>
     let o' := inner outer st
-    let f := plainFrame o' body
+    let f := filterFrame o' flt body
     resolves f ++ cgs o' f body
   | .with_ tg _ body =>
     let o' := inner outer st
@@ -461,9 +441,9 @@ def run (o : Oracle) (outer : List Name) (st : St) : Stmt → List Name
       rep (oj 0) (fun i => resolves lf ++ runs (oj.l.nth i) o' lf body) ++
       (if oj 0 = 0 ∧ !els.isEmpty then resolves ef ++ runs oj.r o' ef els else [])
   | .assign _ _ => []
-  | .assignBlock _ _ body =>
+  | .assignBlock _ flt body =>
     let o' := inner outer st
-    let f := plainFrame o' body
+    let f := filterFrame o' flt body
     resolves f ++ runs o o' f body
   | .with_ tg _ body =>
     let o' := inner outer st
